@@ -241,8 +241,16 @@ def u_algo(ctx):
             elif cls is A2C:
                 kw.update(gae_lambda=float(ctx.rng.uniform(0, 1)))
             algo = cls(**kw)
-            pol = MLPActorCriticPolicy(env, key=ctx.key(1000 + i), feature_size=4, feature_width=8,
-                                       value_width=8, action_width=8)
+            if i % 2 == 1:
+                # stateful policy whose value depends on its internal step counter: a bootstrap value
+                # computed with any but the post-rollout policy state is visible
+                from vlib.stubs import CountingACPolicy
+
+                pol = CountingACPolicy(env, key=ctx.key(1000 + i))
+                ctx.monitor("algo_rollouts_with_stateful_policy")
+            else:
+                pol = MLPActorCriticPolicy(env, key=ctx.key(1000 + i), feature_size=4, feature_width=8,
+                                           value_width=8, action_width=8)
             cb = algo.consolidate_callbacks(None)
             st = algo.reset(env, pol, key=ctx.key(2000 + i), callback=cb)
             seen["last"] = None
@@ -279,6 +287,7 @@ def u_algo(ctx):
     ctx.notes["contract_concrete"] = seen["concrete"]
     ctx.require("contract_concrete_evaluations", 3)
     ctx.require("true_episode_ends_in_algo_rollouts", 3)
+    ctx.require("algo_rollouts_with_stateful_policy", 3)
 
 
 def u_vector(ctx):
